@@ -994,10 +994,17 @@ def rechunk(x, chunks, *, min_mem=None, allow_irregular=True):
         x, chunks, min_mem=min_mem, allow_irregular=allow_irregular
     ):
         out = _rechunk(out, copy_chunks, target_chunks, allow_irregular=allow_irregular)
+    if out is x and array_size(x.shape) == 0:
+        # zero-size array: no data to move, but the result must have the requested chunks
+        normalized_chunks = _normalize_rechunk_chunks(x, chunks)
+        if x.chunks != normalized_chunks:
+            from cubed.array_api.creation_functions import empty
+
+            out = empty(x.shape, dtype=x.dtype, chunks=normalized_chunks, spec=x.spec)
     return out
 
 
-def _rechunk_plan(x, chunks, *, min_mem=None, allow_irregular=True):
+def _normalize_rechunk_chunks(x, chunks):
     if isinstance(chunks, dict):
         chunks = {validate_axis(c, x.ndim): v for c, v in chunks.items()}
         for i in range(x.ndim):
@@ -1008,7 +1015,11 @@ def _rechunk_plan(x, chunks, *, min_mem=None, allow_irregular=True):
     if isinstance(chunks, (tuple, list)):
         chunks = tuple(lc if lc is not None else rc for lc, rc in zip(chunks, x.chunks))
 
-    normalized_chunks = normalize_chunks(chunks, x.shape, dtype=x.dtype)
+    return normalize_chunks(chunks, x.shape, dtype=x.dtype)
+
+
+def _rechunk_plan(x, chunks, *, min_mem=None, allow_irregular=True):
+    normalized_chunks = _normalize_rechunk_chunks(x, chunks)
     if x.chunks == normalized_chunks:
         return
     if array_size(x.shape) == 0:
